@@ -4,6 +4,10 @@ use crate::rng::Rng;
 use petgraph::graph::IndexType;
 use petgraph::unionfind::UnionFind;
 
+fn len_ok(_n: usize) -> bool {
+    true
+}
+
 fn run_case<K: IndexType>(ctx: &mut Ctx, rng: &mut Rng, case: u64, w: u32) {
     ctx.raw(&format!("case {} w={}", case, w));
     let max_elems: usize = if w == 8 { 256 } else { usize::MAX };
@@ -13,6 +17,7 @@ fn run_case<K: IndexType>(ctx: &mut Ctx, rng: &mut Rng, case: u64, w: u32) {
         0 => 0,
         1 if w == 8 => 250 + rng.below(7),
         1 => 40 + rng.below(30),
+        2 | 3 => 8 + rng.below(33),
         _ => 1 + rng.below(12),
     };
     let mut uf: UnionFind<K> = match rng.below(4) {
@@ -22,6 +27,28 @@ fn run_case<K: IndexType>(ctx: &mut Ctx, rng: &mut Rng, case: u64, w: u32) {
         _ => UnionFind::new(n0),
     };
     ctx.line(&format!("new {}", n0), "ok");
+    // deep-tree family: balanced "tournament" merges build trees of depth log2(n) (union by rank only
+    // grows the depth when two trees of equal rank meet), which random unions almost never do
+    if n0 >= 8 && len_ok(n0) && rng.chance(35) {
+        let mut step = 1;
+        while step < n0 {
+            let mut i = 0;
+            while i + step < n0 {
+                // join the two blocks through arbitrary members, in either argument order
+                let a = i + rng.below(step.min(n0 - i));
+                let b = i + step + rng.below(step.min(n0 - i - step));
+                let (x, y) = if rng.chance(50) { (a, b) } else { (b, a) };
+                let r = catch(|| uf.union(K::new(x), K::new(y)));
+                ctx.line(&format!("union {} {}", x, y), &r.map(|v| v.to_string()).unwrap_or("panic".into()));
+                i += 2 * step;
+            }
+            step *= 2;
+        }
+        let r = catch(|| list((0..uf.len()).map(|i| uf.find(K::new(i)).index())));
+        ctx.line("dump", &r.unwrap_or_else(|| "panic".into()));
+        let r = catch(|| list(uf.clone().into_labeling().iter().map(|k| k.index())));
+        ctx.line("labeling", &r.unwrap_or("panic".into()));
+    }
     let nops = 5 + rng.below(if n0 > 30 { 120 } else { 55 });
     let dump = |ctx: &mut Ctx, uf: &UnionFind<K>| {
         let r = catch(|| list((0..uf.len()).map(|i| uf.find(K::new(i)).index())));
